@@ -133,6 +133,9 @@ def base_list(tier, seed):
             out.append({'kind': 'coneqp', 'dims': d, 'n': n, 'p': p, 'init': None, 'refinement': None, 'variant': seed})
             if tier == 'thorough' or p == 0:
                 out.append({'kind': 'coneqp', 'dims': d, 'n': n, 'p': p, 'init': ['x', 's', 'y', 'z'], 'refinement': 1, 'variant': seed + 1})
+    # coneqp without inequalities: one direct KKT solve (start-up protocol: the documented ValueError about rank)
+    for (n, p) in ((2, 1), (2, 0), (3, 2)):
+        out.append({'kind': 'coneqp', 'dims': {'l': 0, 'q': [], 's': []}, 'n': n, 'p': p, 'init': None, 'refinement': None, 'variant': seed})
     # ballo1.1 / ball2.0: cpl takes relaxed steps that overshoot, so faults there exercise the restore-and-retry path
     tags = ['quad2.0', 'acent2.1', 'acent2.0.015625', 'entropy2', 'lse.0.cp', 'ballo2.0', 'ballo1.1', 'ball2.0', 'expc2', 'logdom.0.1', 'logdom.1.0.015625']
     if tier == 'thorough':
